@@ -282,6 +282,11 @@ def _gen_case(rp, rf, rk, tier, flavour):
             "kw_pad": rk.random() < 0.15, "facts_mid": (rk.randrange(len(specs)) if flavour == "C09" and rk.random() < 0.2 else None),
             "marker_mode": marker_mode, "regime": "collision" if collision else ("k6" if k6 else "base"),
             "suffix_pair": suffix_pair, "prefix_pair": prefix_pair, "mac_twins": mac_twins, "_pool": pool}
+    if not cfg["obfuscate"] and len(specs) >= 2 and rk.random() < 0.6:
+        case["concurrent"] = {"seed": rk.getrandbits(32),
+                              "policy": ({"kind": "walk", "p": rk.choice([0.02, 0.05, 0.1, 0.3])} if rk.random() < 0.7 else
+                                         {"kind": "pct", "depth": rk.choice([1, 2, 3]), "horizon": rk.choice([100, 300, 1000])})}
+        case["facts_mid"] = None
     if collision:
         # plant originals that equal substitutes the obfuscator will have issued by then
         n_issued = len(ips)
@@ -335,7 +340,7 @@ class Run(object):
     pass
 
 
-def run_history(case, facts_dir=None):
+def run_history(case, facts_dir=None, serial=False):
     cfgd = dict(case["cfg"])
     if facts_dir:
         cfgd["rhsm_facts_file"] = os.path.join(facts_dir, "insights-client.facts")
@@ -363,9 +368,9 @@ def run_history(case, facts_dir=None):
     r.raised = []
     r.orders = []
     r.snapshots = []
-    for si, spec in enumerate(case["specs"]):
+
+    def clean_spec(si, spec):
         raw = [text_of(segs) for segs in spec["lines"]]
-        del order_log[:]
         try:
             via = spec.get("via", "content")
             kwargs = dict(no_obfuscate=list(spec["no_obfuscate"]), no_redact=spec["no_redact"],
@@ -381,18 +386,63 @@ def run_history(case, facts_dir=None):
                 out = [l.rstrip("\n") for l in open(fp).readlines()] if os.path.exists(fp) else []
             else:
                 out = c.clean_content(list(raw), width=spec["width"], **kwargs)
-            r.outputs.append(out)
-            r.raised.append(None)
-            if facts_dir and case.get("facts_mid") == si:
-                c.generate_rhsm_facts()              # a report in the middle of the run must not disturb anything
+            return out, None
         except Exception as e:
-            r.outputs.append(None)
-            r.raised.append(repr(e)[:200])
+            return None, repr(e)[:200]
+
+    conc = case.get("concurrent") if not serial else None
+    if conc:
+        # one Cleaner entered by several caller threads at once (what collect() does with its thread pool while
+        # obfuscation is off): every spec is one task of a SimPool, pre-empted at line events inside the cleaner
+        import random
+        from simkit.simpool import SimPool
+        for obj in wrapped:
+            del obj.parse_line                    # the application-order log is per history, not per thread
+        pool = SimPool(random.Random(conc["seed"]), max_workers=None, policy=conc["policy"], traced_files=cleaner_files(),
+                       max_steps=60000)
+        try:
+            futs = [pool.submit(clean_spec, si, spec) for si, spec in enumerate(case["specs"])]
+            for f in futs:
+                out, raised = f.result()
+                r.outputs.append(out)
+                r.raised.append(raised)
+                r.orders.append([])
+        finally:
+            pool.shutdown()
+        r.pool_switches = len(pool.switches)
+        r.snapshots = [mappings(c) for _ in case["specs"]]
+        r.final = mappings(c)
+        return r
+    for si, spec in enumerate(case["specs"]):
+        del order_log[:]
+        out, raised = clean_spec(si, spec)
+        r.outputs.append(out)
+        r.raised.append(raised)
+        if raised is None and facts_dir and case.get("facts_mid") == si:
+            try:
+                c.generate_rhsm_facts()              # a report in the middle of the run must not disturb anything
+            except Exception as e:
+                r.outputs[-1] = None
+                r.raised[-1] = repr(e)[:200]
         # per-line application order: split the flat log at each first parser
         r.orders.append(list(order_log))
         r.snapshots.append(mappings(c))
     r.final = mappings(c)
     return r
+
+
+_CLEANER_FILES = []
+
+
+def cleaner_files():
+    if not _CLEANER_FILES:
+        import insights.cleaner as c0
+        import insights.cleaner.filters as c1
+        import insights.cleaner.pattern as c2
+        import insights.cleaner.keyword as c3
+        import insights.cleaner.password as c4
+        _CLEANER_FILES.extend(m.__file__ for m in (c0, c1, c2, c3, c4))
+    return tuple(_CLEANER_FILES)
 
 
 def mappings(c):
@@ -724,6 +774,9 @@ class CleanerCheck(Check):
         stats["probes"]["specs_cleaned"] = len(case["specs"])
         ntok = sum(1 for spec in case["specs"] for segs in spec["lines"] for s in segs if s[0] not in ("f", "d", "mk"))
         nontrivial = ntok >= 2
+        if case.get("concurrent"):
+            stats["probes"]["concurrent_histories"] = 1
+            stats["probes"]["concurrent_history_switches"] = getattr(r, "pool_switches", 0)
         if case["regime"] != "base":
             stats["probes"]["cases_in_%s_regime" % case["regime"]] = 1
         if case.get("suffix_pair"):
@@ -841,10 +894,16 @@ class C10(CleanerCheck):
             d = tempfile.mkdtemp(prefix="w3-", dir=scratch_base())
         try:
             r = run_history(case, facts_dir=d)
+            ref = run_history(case, facts_dir=d, serial=True) if case.get("concurrent") else None
         finally:
             if d:
                 shutil.rmtree(d, ignore_errors=True)
         viols = oracle_c10(case, r, stats)
+        if ref is not None and (ref.outputs, ref.raised) != (r.outputs, r.raised):
+            bad = [(si, a, b) for si, (a, b) in enumerate(zip(ref.outputs, r.outputs)) if a != b][:1]
+            viols.append(V("C10.deterministic", "concurrent-output-differs-from-serial",
+                           "the same specs cleaned by concurrent callers of one Cleaner (obfuscation off) and one after the other: "
+                           "spec %s serial %r, concurrent %r" % (bad[0] if bad else ("?", ref.raised, r.raised))))
         res = self.base_result(case, r, viols, stats)
         res["sig"] = digest([r.outputs, r.final, r.raised])
         res["digest"] = res["sig"]
